@@ -73,8 +73,12 @@ def framings(body):
     return F
 
 
-def segmentations(stream, head_len):
+def segmentations(stream, head_len, msg_len=None):
     yield "whole", [stream]
+    if msg_len is not None and msg_len - 3 > head_len:
+        # the read that completes the message (its trailer section, for chunked bodies) also carries the next request
+        yield "split-before-end", [stream[:msg_len - 3], stream[msg_len - 3:]]
+        yield "split-at-end", [stream[:msg_len], stream[msg_len:]]
     yield "bodystart", [stream[:head_len], stream[head_len:]]
     ch = [stream[i:i + 1] for i in range(head_len)] + \
          [stream[i:i + 1024] for i in range(head_len, len(stream), 1024)]
@@ -178,8 +182,8 @@ def _task(t):
     for fname, stream in framings(body):
         head_len = stream.index(b"\r\n\r\n") + 4
         full = stream + NEXT
-        for sname, chunks in segmentations(full, head_len):
-            if sname != "whole" and len(body) == 0 and sname != "bodystart":
+        for sname, chunks in segmentations(full, head_len, len(stream)):
+            if sname != "whole" and len(body) == 0 and sname not in ("bodystart", "split-before-end", "split-at-end"):
                 continue
             for prog in programs(L):
                 evals += 1
@@ -195,6 +199,59 @@ def _task(t):
                                               {"body": body.decode("latin-1"), "framing": fname, "seg": sname,
                                                "prog": [[o, n] for o, n in prog]})
     return {"evals": evals, "nontriv": nontriv, "viols": list(viols.values()), "body": bname}
+
+
+class EchoApp:
+    def __call__(self, environ, start_response):
+        body = environ["wsgi.input"].read()
+        start_response("200 OK", [("Content-Length", str(len(body)))])
+        return [body]
+
+
+def interleaved_bodies():
+    """Two connections served concurrently by ONE worker, their body reads interleaved: each application call must see
+    its own body (the framing readers must not share state between connections)."""
+    from vlib import bench
+    from props.c08 import merges
+    viols = []
+    n = 0
+    for kind, kw in (("async", {"keepalive": 2}), ("gthread", {"keepalive": 2, "threads": 2, "worker_connections": 4})):
+        for framing in ("cl", "chunked"):
+            bodies = {"A": b"a" * 700 + b"A" * 500, "B": b"b" * 300 + b"B" * 900}
+            ev = {}
+            for name, body in bodies.items():
+                if framing == "cl":
+                    head = b"POST /e HTTP/1.1\r\nHost: h\r\nContent-Length: %d\r\n\r\n" % len(body)
+                    wire = head + body
+                else:
+                    wire = b"POST /e HTTP/1.1\r\nHost: h\r\nTransfer-Encoding: chunked\r\n\r\n" + chunked(body, 400)
+                cutp = len(wire) - len(body) // 2
+                ev[name] = [(name, wire[:cutp]), (name, wire[cutp:])]
+            for order in merges(ev["A"], ev["B"]):
+                b = bench.Bench(kind, kw, EchoApp())
+                il = bench.Interleaver(b)
+                try:
+                    opened = set()
+                    for name, data in order:
+                        if name not in opened:
+                            il.open(name, ("10.0.0.%d" % (1 + (name == "B")), 5))
+                            opened.add(name)
+                        il.send(name, data)
+                    got = {}
+                    for name in ("A", "B"):
+                        c = il.close(name)
+                        got[name] = c["wire"].split(b"\r\n\r\n", 1)[1] if b"\r\n\r\n" in c["wire"] else None
+                finally:
+                    b.close()
+                n += 1
+                for name in ("A", "B"):
+                    if got[name] != bodies[name]:
+                        viols.append(violation("input-api:bodies-of-concurrent-connections-mixed:%s" % framing,
+                                               "worker=%s framing=%s order=%s: the application call on connection %s read %r.. (%s bytes), its request body is %r.. (%d bytes)" % (
+                                                   kind, framing, "".join(x for x, _ in order), name, (got[name] or b"")[:12], len(got[name]) if got[name] is not None else None,
+                                                   bodies[name][:12], len(bodies[name])), {"interleaved": True}))
+                        break
+    return viols[:2], n
 
 
 def run(ctx):
@@ -217,8 +274,11 @@ def run(ctx):
     res = par.pmap(_task, tasks)
     res.sort(key=lambda r: r["body"])
     viols = [v for r in res for v in r["viols"]]
+    iv, ni = interleaved_bodies()
+    viols += iv
     cov = {
-        "evaluations": sum(r["evals"] for r in res),
+        "interleaved_two_connection_body_reads": ni,
+        "evaluations": sum(r["evals"] for r in res) + ni,
         "distinct_nontrivial": sum(r["nontriv"] for r in res),
         "rule": "every (body, framing, segmentation, program of <=L calls over %d operations) is one case; "
                 "non-trivial = not the single call read()/read(-1)" % len(OPS),
@@ -235,13 +295,16 @@ def run(ctx):
 
 
 def replay(case):
+    if case.get("interleaved"):
+        iv, _ = interleaved_bodies()
+        return iv[0] if iv else None
     body = case["body"].encode("latin-1")
     cfg = gparse.make_cfg()
     for fname, stream in framings(body):
         if fname != case["framing"]:
             continue
         head_len = stream.index(b"\r\n\r\n") + 4
-        for sname, chunks in segmentations(stream + NEXT, head_len):
+        for sname, chunks in segmentations(stream + NEXT, head_len, len(stream)):
             if sname == case["seg"]:
                 prog = [(o, n) for o, n in case["prog"]]
                 r = run_program(chunks, body, prog, cfg)
